@@ -4,6 +4,6 @@ from . import c01
 
 def run(tier, seed, only=None):
     res = c01.run_prop("C02", tier, seed, only)
-    return res.finish(c01.RULES["C02"] + c01.COMMON_RULE + " For / the result rep must equal trunc(ra/rb) at exponent ea-eb, for % trem(ra,rb) (sign of the dividend) at exponent ea - which "
+    return res.finish(c01.RULES["C02"] + c01.COMMON_RULE + c01.big.RULE + " For / the result rep must equal trunc(ra/rb) at exponent ea-eb, for % trem(ra,rb) (sign of the dividend) at exponent ea - which "
                       "implies the identity (a/b)*b + a%b == a and |rep(a%b)| < |rep(b)|; quotient() must equal the true quotient truncated toward zero at the result type's own exponent.", assumptions=[
         "exact oracle on 256-bit integers", "domain: divisor != 0; built-in reps: operands representable in the common type and not (lowest, -1)", "quotient(): radix 2 only (decimal does not instantiate)"])
